@@ -10,7 +10,7 @@ tvars == <<vars, tid, l, status>>
 
 ASSUME \A i \in 1..Len(Logs) : TLCSet(i, <<0, "ok">>)
 
-InputOf(r)  == [ack |-> r.ack, nak |-> r.nak, stall |-> r.stall, ready |-> r.ready]
+InputOf(r)  == [ack |-> r.ack, nak |-> r.nak, stall |-> r.stall, ready |-> r.ready, rst |-> r.rst]
 OutputOf(r) == [valid |-> r.valid, data |-> r.data]
 
 TInit == Init /\ tid \in 1..Len(Logs) /\ l = 1 /\ status = "ok"
